@@ -6,7 +6,8 @@ float-path (hdl21.sim.proto.export_float on single Prefixed values), random-vali
 specification on the implementation's SimInput (every double against nearest_double), the symbolic model against it through the
 tree's float() table, and the model with computed float fields (Model/C17Float.v, round_dec) bit for bit.  Second-rounding
 coverage targets (Cover) are measured on the accepted calls and fail closed."""
-import json, copy, math, time
+import json, copy, math, time, posixpath
+from pathlib import PurePosixPath
 from decimal import Decimal, Context
 from fractions import Fraction
 from . import core
@@ -21,7 +22,7 @@ def cz(z):
 
 
 IMPORTS = ("From Coq Require Import String Ascii.\n"
-           "Require Import Hdl21.Base.PyInt Hdl21.Spec.SimSpec Hdl21.Model.SimExport Hdl21.Corr.C03 Hdl21.Corr.C17.\n"
+           "Require Import Hdl21.Base.PyInt Hdl21.Spec.SimSpec Hdl21.Model.SimExport Hdl21.Model.C17Path Hdl21.Corr.C03 Hdl21.Corr.C17.\n"
            "Open Scope string_scope.\nSet Printing Width 1000000.")
 PREFIXES = [-24, -21, -18, -15, -12, -9, -6, -3, -2, -1, 0, 1, 2, 3, 6, 9, 12, 15, 18, 21, 24]
 KINDS = ["op", "dc", "ac", "tran", "noise", "sweep", "monte", "custom"]
@@ -102,14 +103,16 @@ def c_starg(g):
     return f"(TNames {clist(g[1], cstr)})"
 
 
-def c_attr(a):
+def c_attr(a, raw=False):
+    """raw: a read-back attribute (the text str(path) of the Path the Sim holds, verbatim); otherwise the generator's intent:
+    the designer wrote the text a[1], the control holds pathlib's path of it, whose text is path_str (Model/C17Path.v)"""
     t = a[0]
     if t in ANALYSES:
         return f"(AtAn {c_analysis(a)})"
     if t == "include":
-        return f"(AtCtrl (CInclude {cstr(a[1])}))"
+        return f"(AtCtrl (CInclude {cstr(a[1])}))" if raw else f"(AtCtrl (CInclude (path_str {cstr(a[1])})))"
     if t == "lib":
-        return f"(AtCtrl (CLib {cstr(a[1])} {cstr(a[2])}))"
+        return f"(AtCtrl (CLib {cstr(a[1])} {cstr(a[2])}))" if raw else f"(AtCtrl (CLib (path_str {cstr(a[1])}) {cstr(a[2])}))"
     if t == "save":
         return f"(AtCtrl (CSave {c_starg(a[1])}))"
     if t == "meas":
@@ -333,7 +336,7 @@ def c_case(case, out):
             tb = rb["tb"]
             tbs = c_tb(case["mods"], tb) if str(tb) in case["mods"] else \
                 '{| tb_mod := HMod 999999%N "<unknown testbench>" []; tb_pre_ports := []; tb_ports := [] |}'
-            return f"{{| s_tb := {tbs}; s_attrs := {clist(rb['attrs'], c_attr)} |}}"
+            return f"{{| s_tb := {tbs}; s_attrs := {clist(rb['attrs'], lambda x: c_attr(x, raw=True))} |}}"
         rd = f"(Some {clist(out['read'], c_sim)})"
     o = "None" if out["out"] is None else f"(Some {clist(out['out'], c_siminput)})"
     ft = clist(out["ftab"], lambda e: f"({cz(e[0])}, {cz(e[1])}, {c_dbl(e[2])})")
@@ -358,6 +361,89 @@ AUTO = _auto_prefix()
 NAMES = ["a", "mytran", "x1", "dc_1", AUTO + "0", AUTO + "1", AUTO, "tr2", "an_7", "Sweep"]
 STRS = ["x", "vdd", "out_p", "trig_targ_something", ".option temp=27", "v(out) / v(in)", "a b  c", "tt", "fast", "1+2"]
 PATHS = ["/home/models", "a/b.sp", "models.lib", "/x/y/z.scs", "lib"]
+# every class of written path text: plain; `..` after a named segment (absolute / relative / several / at the end), leading `..`,
+# `..` directly below the root; `.` segments, doubled and trailing slashes (pathlib drops those: the text of the path differs
+# from the written text); the three kinds of root (`/`, exactly `//`, three or more); the empty path; segments that
+# os.path.expanduser / expandvars / case folding would touch; dots and blanks inside names
+PATH_SHAPES = PATHS + [
+    "/pdk/current/../corners.lib", "tb/../../shared/models.lib", "a/../b/../c.lib", "/pdk/v2/models/../../corners.lib",
+    "models/..", "/pdk/current/..", "a/b/../../../c", "./tb/../m.lib", "//server/share/../m.lib", "a/../..",
+    "../shared/models.lib", "../../x.lib", "..", "../..", "/..", "/../pdk/m.lib", "//../x.lib", "/../../m.lib",
+    ".", "", "./", "./models.lib", "a/./b.sp", "a/.", "/.", "/./pdk/m.lib", "./../m.lib",
+    "a//b.sp", "/pdk//models.lib", "models/", "/pdk/models/", "a//", ".//a", "/pdk/./models//tt.lib/",
+    "/", "//", "///", "//server/share/m.lib", "///pdk/m.lib", "////pdk//m.lib//",
+    "~/models/tt.lib", "~eda/pdk/m.lib", "$HOME/models.lib", "${HOME}/../m.lib", "Models/TT.lib", ".hidden/m.lib", ".../m.lib",
+    "..x/a..b", "my models/lib 1.sp", "/pdk/~/x.lib",
+]
+PATH_NAMES = ["pdk", "current", "models", "tb", "shared", "v2", "corners.lib", "models.lib", "a", "b.sp", "x_1", "TT", "Models", "~", "~eda",
+              "$HOME", "${HOME}", ".hidden", "...", "..x", "a..b", "lib 1", "all.spice", "home"]
+PATH_FORMS = ["str", "path"]      # Include("text") / Include(pathlib.Path("text"))
+
+
+def gen_path(r):
+    """a written path text: the whole alphabet of segments (names, `..`, `.`, empty = doubled slash), every kind of root"""
+    if r.random() < 0.3:
+        return r.choice(PATH_SHAPES)
+    w = r.choice(["", "", "", "/", "/", "/", "//", "///", "./", "../", "../../"])
+    for i in range(r.choice([1, 2, 2, 3, 3, 4, 5])):
+        v = r.random()
+        if i:
+            w += "//" if r.random() < 0.08 else "/"
+        w += ".." if v < 0.22 else "." if v < 0.3 else r.choice(PATH_NAMES)
+    if r.random() < 0.12:
+        w += r.choice(["/", "//", "/."])
+    return w
+
+
+def path_props(w):
+    """features of a written path text (for the coverage targets; stdlib only)"""
+    lead = len(w) - len(w.lstrip("/"))
+    rooted = lead > 0
+    body = w[lead:]
+    segs = body.split("/")
+    kept = [x for x in segs if x not in ("", ".")]
+    f = {"absolute" if rooted else "relative"}
+    if lead == 2:
+        f.add("two-leading-slashes")
+    if lead > 2:
+        f.add("many-leading-slashes")
+    if "//" in body:
+        f.add("doubled-slash")
+    if body.endswith("/"):
+        f.add("trailing-slash")
+    if "." in segs:
+        f.add("dot-segment")
+    if not kept:
+        f.add("no-segment")
+    for i, x in enumerate(kept):
+        if x == "..":
+            if i == 0:
+                f.add("dotdot-below-root" if rooted else "dotdot-leading")
+            elif kept[i - 1] == "..":
+                f.add("dotdot-after-dotdot")
+            else:
+                f.add("dotdot-after-name:" + ("absolute" if rooted else "relative"))
+    if any(x.startswith("~") for x in kept):
+        f.add("tilde")
+    if "$" in w:
+        f.add("dollar")
+    if any(ch.isupper() for ch in w):
+        f.add("upper-case")
+    if " " in w:
+        f.add("blank")
+    if any(x not in ("..",) and ".." in x or x == "..." or (x.startswith(".") and x not in (".", "..")) for x in kept):
+        f.add("dots-in-name")
+    if posixpath.normpath(w) != str(PurePosixPath(w)):
+        f.add("normpath-differs")
+    if str(PurePosixPath(w)) != w:
+        f.add("text-differs-from-written")
+    return f
+
+
+PATH_FEATURES = ["absolute", "relative", "two-leading-slashes", "many-leading-slashes", "doubled-slash", "trailing-slash", "dot-segment",
+                 "no-segment", "dotdot-below-root", "dotdot-leading", "dotdot-after-dotdot", "dotdot-after-name:absolute",
+                 "dotdot-after-name:relative", "tilde", "dollar", "upper-case", "blank", "dots-in-name", "normpath-differs",
+                 "text-differs-from-written"]
 SIGS = ["out", "inp", "n1", "vdd", "x_0"]
 FLOATS = [1e-9, 0.1, 1.5, 3.3, 1e10, 2.5e-12, 1e-3, 4.7e3, 0.3, 1e23, 8.41e21, 9007199254740993.0, 5e-324, 1.7976931348623157e308,
           0.001, 1e-15, 6.02e23, 2.0 ** -30, 123456.789, 1e22]
@@ -576,9 +662,9 @@ def gen_save(r):
 def gen_control(r, style, items, lit):
     t = r.choice(["include", "lib", "save", "save", "meas", "param", "literal"])
     if t == "include":
-        return ["include", r.choice(PATHS)]
+        return ["include", gen_path(r), r.choice(PATH_FORMS)]
     if t == "lib":
-        return ["lib", r.choice(PATHS), r.choice(["tt", "ff", "fast", "s s"])]
+        return ["lib", gen_path(r), r.choice(["tt", "ff", "fast", "s s"]), r.choice(PATH_FORMS)]
     if t == "save":
         return gen_save(r)
     if t == "meas":
@@ -746,6 +832,12 @@ def corpus():
     c.append(dict(mods=two, sims=[mk(0, "proc"), mk(1, "add"), mk(0, "proc")], as_list=True))
     c.append(dict(mods=two, sims=[mk(0, "proc")], as_list=True))
     c.append(dict(mods=two, sims=[], as_list=True))
+    # seeded C17r4-C: paths exported through os.path.normpath (`name/..` struck out: another file when `name` is a link)
+    seeded_paths = ["/pdk/models/all.spice", "models/all.spice", "/pdk/current/../corners.lib", "../shared/models.lib", "tb/../../shared/models.lib"]
+    for st in ("proc", "add", "class"):
+        c.append(one(st, [x for i, w in enumerate(seeded_paths) for x in ([f"i{i}", ["include", w, "str"]], [f"l{i}", ["lib", w, "tt", "str"]])]))
+    c.append(one("proc", [["i", ["include", "/pdk/current/../corners.lib", "path"]]]))
+    c.append(one("add", [["l", ["lib", "tb/../../shared/models.lib", "tt", "path"]]]))
     # float values where float(number) * 10**prefix is not the nearest double (counted, not alarmed: C14)
     c.append(one("proc", [["k0", ["tran", ["pre", 3, 0, -9, "mul"], ["pre", 7, 0, -15, "pre"], "t"]]]))
     return c
@@ -777,6 +869,11 @@ def exhaustive_small():
         ctr += [["meas", ["an", k], "e", "m"] for k in KINDS]
         for a in ctr:
             c.append(one(st, [["ct", a]]))
+        # every shape of written path x Include / Lib, both written forms (rotating with the shape and the style)
+        for i, w in enumerate(PATH_SHAPES):
+            fm = PATH_FORMS[(i + len(st)) % 2]
+            c.append(one(st, [["inc", ["include", w, fm]]]))
+            c.append(one(st, [["lb", ["lib", w, "tt", PATH_FORMS[(i + len(st) + 1) % 2]]]]))
         # every scalar form of a numeric field
         for form_num in (["pre", 5, 0, 0, "int"], ["pre", 15, -1, 0, "float"], ["pre", 1, -9, 0, "float"], ["pre", 15, -1, 0, "str"],
                          ["pre", 150, -2, 0, "dec"], ["pre", 15, -1, -9, "pre"], ["pre", 11, 0, -12, "mul"], ["pre", 1, 0, 24, "mul"]):
@@ -990,6 +1087,40 @@ class Cover:
         return t
 
 
+class PathCover:
+    """which written path texts were really exported and compared (Include / Lib controls of accepted calls)"""
+
+    def __init__(self):
+        self.feat = {f"{k}:{f}": 0 for k in ("include", "lib") for f in PATH_FEATURES}
+        self.struck = {f"normpath-differs:{st}:{fm}": 0 for st in ("proc", "add", "class") for fm in PATH_FORMS}
+        self.paths = 0
+        self.distinct = set()
+
+    def add(self, cases, outs):
+        for case, o in zip(cases, outs):
+            if o["out"] is None:
+                continue
+            for s in case["sims"]:
+                for _, a in s["items"]:
+                    if a[0] not in ("include", "lib"):
+                        continue
+                    self.paths += 1
+                    self.distinct.add(a[1])
+                    fs = path_props(a[1])
+                    for f in fs:
+                        self.feat[f"{a[0]}:{f}"] += 1
+                    if "normpath-differs" in fs:
+                        self.struck[f"normpath-differs:{s['style']}:{path_form(a)}"] += 1
+
+    def targets(self):
+        return {**{"path:" + k: v for k, v in self.feat.items()}, **{"path:" + k: v for k, v in self.struck.items()}}
+
+
+def path_form(a):
+    n = 3 if a[0] == "include" else 4
+    return a[n - 1] if len(a) >= n else "str"
+
+
 # ------------------------------------------------------------------------------------------------
 # sizes, classification
 # ------------------------------------------------------------------------------------------------
@@ -1079,6 +1210,7 @@ def run(run, tier, seed, replay=None):
     all_cases = 0
 
     cover = Cover()
+    pcover = PathCover()
 
     def do(name, cases, **extra):
         nonlocal total_round, py_round, all_cases
@@ -1086,6 +1218,7 @@ def run(run, tier, seed, replay=None):
         outs, bad, rnd = eval_stream(run, name, cases)
         extra["wall_s"] = round(time.time() - t0, 1)
         cover.add(cases, outs)
+        pcover.add(cases, outs)
         coq_cnt = sum(c for _, c in rnd)
         py_cnt = sum(1 for o in outs for e in o["ftab"] if not e[3])
         total_round += coq_cnt
@@ -1200,6 +1333,26 @@ def run(run, tier, seed, replay=None):
         run.violation("C17:spec-validation:autoname", f"auto_name disagrees with CPython on {ks[i]}",
                       dict(kind="spec-validation", stream="autoname", case=ks[i]), found_input=False)
 
+    # ---------------------------------------------------------------- spec validation: the text of a path (pathlib), normpath
+    ws = list(PATH_SHAPES) + [gen_path(core.rng(seed, "C17", "spec-path", k)) for k in range(400 if quick else 6000)]
+    ws = sorted(set(ws), key=lambda w: (len(w), w))
+    p_out = core.run_worker("c17", dict(kind="path", jobs=ws))["results"]
+    for w, o in zip(ws, p_out):
+        if o[0] != o[1] or o[0] != str(PurePosixPath(w)):
+            raise RuntimeError(f"harness: pathlib.Path and PurePosixPath disagree on {w!r}: {o}")
+    bad = core.coq_eval_cases("C17", "pathtext", IMPORTS, "path_case", [f"({cstr(w)}, {cstr(o[0])}, {cstr(o[2])})" for w, o in zip(ws, p_out)],
+                              "run_cases chk_path", chunk=400)
+    run.stream("spec-path-vs-cpython", len(ws), len({w for w in ws if path_props(w) & {"normpath-differs", "text-differs-from-written"}}),
+               rule="path_str w against str(pathlib.Path(w)) in the interpreter of the tree under test, normpath w against os.path.normpath(w), "
+                    "and the predicate `strikes` against their difference; non-trivial = the text of the path differs from the written "
+                    "text or normpath strikes a segment out; distinct by text",
+               normpath_differs=sum(1 for w in ws if "normpath-differs" in path_props(w)),
+               text_differs_from_written=sum(1 for w in ws if "text-differs-from-written" in path_props(w)))
+    for i, code in bad[:1]:
+        run.violation("C17:spec-validation:path", f"path_str / normpath (Coq) disagree with pathlib / os.path on {ws[i]!r}: {p_out[i]}",
+                      dict(kind="spec-validation", stream="pathtext", case=ws[i], oracle=p_out[i]), found_input=False)
+    run.sample(dict(stream="spec-path-vs-cpython", case=ws[len(ws) // 2], oracle=p_out[len(ws) // 2]))
+
     # ---------------------------------------------------------------- corpus
     cs = corpus()
     outs = do("corpus", cs)
@@ -1254,6 +1407,18 @@ def run(run, tier, seed, replay=None):
     for t, cnt in tg.items():
         if cnt == 0:
             run.violation(f"C17:coverage:{t}", f"generator coverage target missed: no exported float field beside a midpoint for {t}",
+                          dict(kind="coverage"), found_input=False)
+    ptg = pcover.targets()
+    run.coverage["path_targets"] = ptg
+    run.coverage["path_summary"] = dict(
+        include_lib_paths_compared=pcover.paths, distinct_written_texts=len(pcover.distinct),
+        changed_by_normpath=sum(pcover.struck.values()),
+        rule="Include / Lib controls of accepted calls; per control kind x feature of the written text (kind of root, `..` after a named "
+             "segment / leading / below the root / after `..`, `.` segments, doubled and trailing slashes, `~`, `$`, upper case, blanks, "
+             "dots in names); texts that os.path.normpath would change per construction style x written form (str / pathlib.Path)")
+    for t, cnt in ptg.items():
+        if cnt == 0:
+            run.violation(f"C17:coverage:{t}", f"generator coverage target missed: no exported Include / Lib path for {t}",
                           dict(kind="coverage"), found_input=False)
     run.coverage["float_double_rounding_cases"] = total_round
     run.coverage["float_double_rounding_note"] = ("number of float() results of the tree under test (per case, distinct values) that are not the double "
